@@ -420,7 +420,7 @@ func init() {
 		Engine: "sched",
 		Procs:  1,
 		Race:   true,
-		Rule:   "all unordered pairs and all triples containing a writer of the calls {Put Get Delete ListKeys Fold iterator-scan Stat Sync Batch(put;commit) Merge} on overlapping keys x index type x {one file; every record rotates} are explored under the controlled scheduler up to the preemption bound, in a -race build whose baton hand-off creates no happens-before edge; per schedule: no race report, no panic, no deadlock/livelock, no internal error from an individually valid call, no nil key from ListKeys. Separately (level background-merge-free-running, NOT an exploration: counted as free_running_executions): Options.EnableBackgroundMerge with the ticker shortened to 200 microseconds, a fixed client script next to the engine's own merge goroutine, free-running under the race detector, final mapping compared with the model across a restart. states = distinct (scenario, outcome) pairs; non-trivial = scenarios with more than one outcome",
+		Rule:   "all unordered pairs and all triples containing a writer of the calls {Put Get Delete ListKeys Fold iterator-scan Stat Sync Batch(put;commit) Merge} on overlapping keys x index type x {one file; every record rotates} are explored under the controlled scheduler up to the preemption bound, in a -race build whose baton hand-off creates no happens-before edge; per schedule: no race report, no panic, no deadlock/livelock, no internal error from an individually valid call, no nil key from ListKeys. Separately (level background-merge-free-running, NOT an exploration: counted as free_running_executions): Options.EnableBackgroundMerge with the ticker shortened to 200 microseconds, a fixed client script next to the engine's own merge goroutine, free-running under the race detector, final mapping compared with the model across a restart. states = distinct (scenario, outcome) pairs; non-trivial = scenarios with more than one outcome. Second free-running pass (two-databases-free-running): two databases in different directories of one process driven by two goroutines at the same time through Merge, writes, a batch, every read path, Sync and the adopting restart, under the race detector and each database's own reference map (nothing but the synchronised buffer pools may be shared between instances)",
 		Assumptions: []string{
 			"the race detector sees only the enumerated executions and reports each distinct race once per process",
 			"2-3 goroutines, one call each (the quantifier's 16 is not reached)",
